@@ -54,7 +54,20 @@ def main():
                    "wall_s": 0.0, "violations": 1}, open(os.path.join(core.EVID, a.pid + ".json"), "w"), indent=1)
         print(f"VIOLATION property={a.pid} replay={path} no-failing-input-found")
         sys.exit(1)
-    sys.exit(core.Engine(mod, a.tier, a.seed).run())
+    try:
+        rc = core.Engine(mod, a.tier, a.seed).run()
+    except Exception as e:  # noqa: last line of defence — a crash of the machinery is never a silent pass nor a bare traceback
+        import traceback
+        os.makedirs(core.REPLAYS, exist_ok=True)
+        path = os.path.join(core.REPLAYS, f"{a.pid}-crash-{a.seed}.json")
+        json.dump({"property": a.pid, "kind": "no-failing-input-found",
+                   "what": "the check could not be completed against the tree under test (the harness or the code it "
+                           "drives raised outside a case), so the property is not shown to hold",
+                   "proof_failures": ["crash: " + "".join(traceback.format_exception(type(e), e, e.__traceback__))[-2000:]],
+                   "broken_correspondence": []}, open(path, "w"), indent=1)
+        print(f"VIOLATION property={a.pid} replay={path} no-failing-input-found")
+        sys.exit(1)
+    sys.exit(rc)
 
 
 if __name__ == "__main__":
